@@ -379,6 +379,9 @@ func (p *path) addRule(
 		if m.body == nil {
 			return fmt.Errorf("body field error %v", rule.Body)
 		}
+		if !isSingularMessage(m.body[len(m.body)-1]) {
+			return fmt.Errorf("body field %v must be a message", rule.Body)
+		}
 		m.hasBody = true
 	}
 
@@ -388,6 +391,9 @@ func (p *path) addRule(
 		m.resp = fieldPath(desc.Output().Fields(), strings.Split(rule.ResponseBody, ".")...)
 		if m.resp == nil {
 			return fmt.Errorf("response body field error %v", rule.ResponseBody)
+		}
+		if !isSingularMessage(m.resp[len(m.resp)-1]) {
+			return fmt.Errorf("response body field %v must be a message", rule.ResponseBody)
 		}
 	}
 
@@ -418,6 +424,12 @@ func (p *path) addAdditionalBindings(
 	}
 
 	return nil
+}
+
+// isSingularMessage reports whether fd can be used as a body selector: the
+// body codecs (un)marshal messages only.
+func isSingularMessage(fd protoreflect.FieldDescriptor) bool {
+	return fd.Message() != nil && !fd.IsList() && !fd.IsMap()
 }
 
 func quote(raw []byte) []byte {
